@@ -27,6 +27,7 @@ import (
 	"encoding/binary"
 	"fmt"
 	"math/rand"
+	"sort"
 	"strings"
 	"time"
 
@@ -335,7 +336,74 @@ func genTotal(content map[string][]byte) int {
 	return t
 }
 
+// genC10Comb: the longest possible proof paths (wcombPool): honest proofs of the blocks of key 0 (65 / 64 / … elements),
+// of its deepest siblings and of a few others must verify; then some tampering of the long proof.
+func genC10Comb(r *rand.Rand, tier string, idx int) []string {
+	depth := 60 + r.Intn(4)
+	if r.Intn(3) == 0 {
+		depth = 63
+	}
+	pool := wcombPool(r, depth)
+	content := map[string][]byte{}
+	var ops []string
+	order := r.Perm(len(pool))
+	for _, k := range order {
+		v := wgenValue(r, k, false)
+		ops = append(ops, fmt.Sprintf("upd %x %x %d", pool[k], v, wvalWeight(v)))
+		content[pool[k]] = v
+	}
+	switch idx % 3 {
+	case 1:
+		ops = append(ops, fmt.Sprintf("commit %d", r.Intn(7)-1))
+	case 2:
+		ops = append(ops, fmt.Sprintf("commit %d", r.Intn(7)-1), "reload")
+	}
+	// first block of a key in the generator's view
+	first := func(key string) int {
+		keys := make([]string, 0, len(content))
+		for k := range content {
+			keys = append(keys, k)
+		}
+		sort.Strings(keys)
+		cum := 0
+		for _, k := range keys {
+			if k == key {
+				return cum + 1
+			}
+			cum += int(wvalWeight(content[k]))
+		}
+		return 1
+	}
+	total := genTotal(content)
+	b0 := first(pool[0])
+	ops = append(ops, fmt.Sprintf("proof %d 0", b0))
+	ops = append(ops, fmt.Sprintf("proof %d 1", first(pool[len(pool)-1]))) // the deepest sibling: same length
+	ops = append(ops, fmt.Sprintf("proof %d 1", first(pool[1+r.Intn(len(pool)-1)])))
+	ops = append(ops, fmt.Sprintf("proof %d 1", total+1))
+	for k := 0; k < 3; k++ { // (the model re-hashes the whole path at every level: long proofs are expensive there)
+		p := []int{0, 1, 30 + r.Intn(30), depth, depth + 1}[r.Intn(5)]
+		var t string
+		switch r.Intn(5) {
+		case 0:
+			t = fmt.Sprintf("reweight %d %d %d 1", p, r.Intn(16), r.Intn(16))
+		case 1:
+			t = fmt.Sprintf("drop %d", p)
+		case 2:
+			t = fmt.Sprintf("dup %d", p)
+		case 3:
+			t = fmt.Sprintf("flip %d h %d %d", p, r.Intn(32), r.Intn(8))
+		default:
+			t = fmt.Sprintf("kind %d", p)
+		}
+		ops = append(ops, fmt.Sprintf("tamper 0 %d %s", b0, t))
+	}
+	return ops
+}
+
 func genC10(r *rand.Rand, tier string, idx int) []string {
+	if idx%150 == 7 {
+		return genC10Comb(r, tier, idx)
+	}
 	nkeys := 1 + r.Intn(9)
 	if idx%11 == 0 {
 		nkeys = 1 + r.Intn(2)
@@ -413,7 +481,7 @@ func genC10(r *rand.Rand, tier string, idx int) []string {
 func init() {
 	register(&Suite{
 		Name:        "c10",
-		Rule:        "tries of 1..9 keys (32-byte keys with shared prefixes of every length, weights 1..4 determined by the value; in memory, committed at collapse levels -1..5, reloaded); honest proofs of every block, then structured tampering of two kept proofs (re-weighting with constant sum, empty-hash child, sibling swap, substitution from other positions/proofs, drop/duplicate/truncate, bit flips in every field, node-kind substitution); non-trivial = at least 2 mutations and one verified honest proof",
+		Rule:        "tries of 1..9 keys (every 150th case: comb-shaped tries of 62..65 keys in which one key has a sibling at every nibble depth 0..60/61/62/63 — the longest proof paths, up to 65 elements; 32-byte keys with shared prefixes of every length, weights 1..4 determined by the value; in memory, committed at collapse levels -1..5, reloaded); honest proofs of every block, then structured tampering of two kept proofs (re-weighting with constant sum, empty-hash child, sibling swap, substitution from other positions/proofs, drop/duplicate/truncate, bit flips in every field, node-kind substitution); non-trivial = at least 2 mutations and one verified honest proof",
 		Gen:         genC10,
 		Run:         runWmpt,
 		CaseTimeout: 3 * time.Minute, // a stalled machine must not look like a hang; a real hang still fails the case
